@@ -62,10 +62,55 @@ def large_graph(run, sc, n_nodes):
                              "rows": len(G.references), "call": "UAGraph.from_file_list([file]).references"})
 
 
+def forward_only(run, sc):
+    """documents without a single inverse reference in which a triple is written twice on its source (alias and literal,
+    with and without IsForward="true"): each declared triple appears once, through every entry point"""
+    import os
+    from opcua_tools.nodeset_parser import parse_xml, parse_xml_files
+    rng = run.rng
+    for j in range(3):
+        k = rng.randint(3, 6)
+        refs, declared = {}, set()
+        for _ in range(rng.randint(2, 6)):
+            a, b = rng.sample(range(k), 2)
+            t = rng.choice([("HasComponent", "i=47"), ("Organizes", "i=35")])
+            declared.add(("ns=1;i=%d" % (10 + a), "ns=1;i=%d" % (10 + b), t[1]))
+            refs.setdefault(a, []).append((t, b))
+        a0 = sorted(refs)[0]
+        refs[a0].append(refs[a0][0])                      # the same triple once more on the same node
+        nodes = []
+        for a in range(k):
+            rr = "".join('<Reference ReferenceType="%s"%s>ns=1;i=%d</Reference>' % (t[n_ % 2], ' IsForward="true"' if n_ % 3 == 1 else "", 10 + b)
+                         for n_, (t, b) in enumerate(refs.get(a, [])))
+            nodes.append('<UAObject NodeId="ns=1;i=%d" BrowseName="1:o%d"><DisplayName>o%d</DisplayName><References>%s</References></UAObject>' % (10 + a, a, a, rr))
+        text = ('<?xml version="1.0" encoding="utf-8"?>\n<UANodeSet xmlns="http://opcfoundation.org/UA/2011/03/UANodeSet.xsd"><NamespaceUris><Uri>urn:fwd</Uri></NamespaceUris>'
+                '<Aliases><Alias Alias="HasComponent">i=47</Alias><Alias Alias="Organizes">i=35</Alias></Aliases>' + "".join(nodes) + "</UANodeSet>")
+        d = sc.sub("fwd%d" % j)
+        path = os.path.join(d, "f.xml")
+        open(path, "w", encoding="utf-8").write(text)
+        case = {"files": {"f.xml": text}}
+        run.case({"forward_only": j, "triples": len(declared)}, tag="forward-only")
+        for entry, fn in (("parse_xml", lambda: parse_xml(path)), ("parse_xml_files", lambda: parse_xml_files([path]))):
+            try:
+                out = fn()
+            except Exception as e:  # noqa: BLE001
+                run.violation(case, {"what": "%s raised" % entry, "impl": type(e).__name__ + ": " + str(e)[:200]})
+                return
+            lk = out["lookup_df"]["uniques"].tolist()
+            got = sorted((str(lk[int(a)]), str(lk[int(b)]), str(lk[int(c)])) for a, b, c in zip(out["references"]["Src"], out["references"]["Trg"], out["references"]["ReferenceType"]))
+            if got != sorted(declared):
+                run.violation(case, {"what": "%s: the references table is not exactly the declared relation (each triple once)" % entry,
+                                     "impl": got, "expected": sorted(declared), "call": "opcua_tools.%s(file)['references']" % entry})
+                return
+
+
 def explore(run):
     rng = run.rng
     thorough = run.tier == "thorough"
     with minibase.Scratch() as sc:
+        forward_only(run, sc)
+        if run.full():
+            return
         large_graph(run, sc, 70000 if thorough else 33000)
         if run.full():
             return
